@@ -49,6 +49,42 @@ func loadKnown(path string) *KnownFindings {
 	return k
 }
 
+// oblClass strips the per-occurrence ordinal and the return ordinal from an obligation name, so that
+// the committed baseline survives unrelated edits (an added statement, an added return).
+func oblClass(name string) string {
+	if i := strings.LastIndex(name, "#"); i >= 0 {
+		name = name[:i]
+	}
+	if i := strings.Index(name, "@ret"); i >= 0 {
+		j := i + 4
+		for j < len(name) && name[j] >= '0' && name[j] <= '9' {
+			j++
+		}
+		name = name[:i] + name[j:]
+	}
+	return name
+}
+
+// Baseline: per property, the obligation classes discharged on the pinned tree.
+type Baseline map[string][]string
+
+func loadBaseline(path string) Baseline {
+	b := Baseline{}
+	if bs, err := os.ReadFile(path); err == nil {
+		json.Unmarshal(bs, &b)
+	}
+	return b
+}
+
+func (b Baseline) has(prop, class string) bool {
+	for _, c := range b[prop] {
+		if c == class {
+			return true
+		}
+	}
+	return false
+}
+
 // PropSpec is the per-property configuration (contracts/properties.json).
 type PropSpec struct {
 	ID             string   `json:"id"`
@@ -60,6 +96,8 @@ type PropSpec struct {
 }
 
 type CheckOpts struct {
+	NoEvidence    bool // selftest runs: do not touch evidence/ and replay/
+	WriteBaseline bool
 	Repo     string
 	Verif    string
 	Prop     string
@@ -98,6 +136,10 @@ func RunCheck(o CheckOpts) int {
 	}
 	g.ComputeWriteSets()
 	known := loadKnown(filepath.Join(o.Verif, "KNOWN_FINDINGS.json"))
+	basePath := filepath.Join(o.Verif, "contracts", "baseline.json")
+	baseline := loadBaseline(basePath)
+	var dischargedClasses = map[string]bool{}
+	var failedClasses = map[string]bool{}
 	specs := map[string]*PropSpec{}
 	if bs, err := os.ReadFile(filepath.Join(o.Verif, "contracts", "properties.json")); err == nil {
 		var list []*PropSpec
@@ -145,6 +187,13 @@ func RunCheck(o CheckOpts) int {
 	}
 	header := g.Header()
 	outDir := filepath.Join(o.Verif, "out", "smt", o.Prop)
+	replayDir := filepath.Join(o.Verif, "replay", o.Prop)
+	if o.NoEvidence {
+		tmp, _ := os.MkdirTemp("", "govc-out")
+		defer os.RemoveAll(tmp)
+		outDir = filepath.Join(tmp, "smt")
+		replayDir = filepath.Join(tmp, "replay")
+	}
 	os.RemoveAll(outDir)
 	srs := SolveAll(g, header, results, outDir, o.Par, timeout, o.Tier == "thorough")
 	// static checks
@@ -155,13 +204,13 @@ func RunCheck(o CheckOpts) int {
 	var slowest string
 	var totalSolver float64
 	var samples []map[string]string
-	replayDir := filepath.Join(o.Verif, "replay", o.Prop)
 	var knownLines, violLines []string
 	for _, s := range srs {
 		nObl++
 		totalSolver += s.Seconds
 		if s.Status == "unsat" {
 			nDis++
+			dischargedClasses[oblClass(s.Obl.Name)] = true
 			bySolver[s.Solver]++
 			if s.Seconds > maxSecs {
 				maxSecs, slowest = s.Seconds, s.Obl.Name
@@ -171,9 +220,16 @@ func RunCheck(o CheckOpts) int {
 			}
 			continue
 		}
-		if f := known.match(o.Prop, s.Obl.Name); f != nil {
+		failedClasses[oblClass(s.Obl.Name)] = true
+		if f := known.match(o.Prop, oblClass(s.Obl.Name)); f != nil {
 			nKnown++
 			knownLines = append(knownLines, fmt.Sprintf("KNOWN-FINDING: property=%s %s %s", o.Prop, s.Obl.Name, f.What))
+			continue
+		}
+		if !o.WriteBaseline && !baseline.has(o.Prop, oblClass(s.Obl.Name)) {
+			// never discharged on the pinned tree: a failed proof of something new is undecided, not a violation
+			fmt.Printf("UNDECIDED property=%s obligation=%s status=%s at=%s reason=not-in-baseline (%s)\n", o.Prop, s.Obl.Name, s.Status, s.Obl.Pos, s.Obl.Desc)
+			undecided++
 			continue
 		}
 		nViol++
@@ -218,6 +274,20 @@ func RunCheck(o CheckOpts) int {
 			suffix = ""
 		}
 		violLines = append(violLines, fmt.Sprintf("VIOLATION property=%s replay=%s obligation=%s%s", o.Prop, rp, sr.Name, suffix))
+	}
+	if o.WriteBaseline {
+		var cls []string
+		for c := range dischargedClasses {
+			if !failedClasses[c] {
+				cls = append(cls, c)
+			}
+		}
+		sort.Strings(cls)
+		baseline[o.Prop] = cls
+		os.MkdirAll(filepath.Dir(basePath), 0o755)
+		bs, _ := json.MarshalIndent(baseline, "", " ")
+		os.WriteFile(basePath, bs, 0o644)
+		fmt.Printf("baseline: property=%s classes=%d written to %s\n", o.Prop, len(cls), basePath)
 	}
 	sort.Strings(knownLines)
 	for _, l := range knownLines {
@@ -272,9 +342,10 @@ func RunCheck(o CheckOpts) int {
 	ev := evidence{PropertyID: o.Prop, Tier: o.Tier, Seed: o.Seed, Level: "proof", WallS: time.Since(t0).Seconds(), Violations: nViol,
 		Assumptions: assum,
 		Coverage: map[string]interface{}{
-			"obligations":               nObl,
+			"obligations":               nObl - nKnown,
 			"discharged":                nDis,
 			"known_findings":            nKnown,
+			"obligations_including_known_findings": nObl,
 			"undecided_functions":       undecided,
 			"checker_cmd":               fmt.Sprintf("bin/govc check -p %s -tier %s (z3 4.8.12, z3-new 5.1.0, cvc5 1.0 raced per obligation, timeout %ds)", o.Prop, o.Tier, timeout),
 			"trusted_base":              assum,
@@ -289,9 +360,11 @@ func RunCheck(o CheckOpts) int {
 			"bounded_standins":          boundedNotes,
 			"contract_files":            g.CS.Files,
 		}}
-	os.MkdirAll(filepath.Join(o.Verif, "evidence"), 0o755)
-	bs, _ := json.MarshalIndent(ev, "", " ")
-	os.WriteFile(filepath.Join(o.Verif, "evidence", o.Prop+".json"), bs, 0o644)
+	if !o.NoEvidence {
+		os.MkdirAll(filepath.Join(o.Verif, "evidence"), 0o755)
+		bs, _ := json.MarshalIndent(ev, "", " ")
+		os.WriteFile(filepath.Join(o.Verif, "evidence", o.Prop+".json"), bs, 0o644)
+	}
 	fmt.Printf("property=%s tier=%s functions=%d obligations=%d discharged=%d known=%d violations=%d undecided=%d wall=%.1fs\n", o.Prop, o.Tier, len(keys), nObl, nDis, nKnown, nViol, undecided, time.Since(t0).Seconds())
 	if nViol > 0 {
 		return 1
